@@ -20,14 +20,15 @@ RULE = (
     "batches; for n <= 4 every labelling of the n-1 gaps with {no cut, plain second calibrate(), checkpoint/restore/continue} "
     "(3^(n-1) segmented runs), for n up to 8 a seeded sample of labellings incl. chains of 2-3 restores. Oracle: at every "
     "boundary the segmented run's five history arrays equal, byte for byte, the same-length prefix of an uninterrupted twin, "
-    "and at the end the whole history. Non-trivial = a cut immediately before the turn of a stateful sampler (Halton/RSequence "
+    "and at the end the whole history; in a third of the cases the run is additionally cut once with the continuation restored and run "
+    "in another interpreter with its own hash seed. Non-trivial = a cut immediately before the turn of a stateful sampler (Halton/RSequence "
     "cursor, PSO swarm, CORS counter, surrogate seed stream, BestBatch generator); distinct by (configuration, labelling)."
 )
 ASSUMPTIONS = [
     "as C01 (no HP-based filters; third-party determinism trusted)",
     "the RL scheduler is limited to one session by the quantifier and takes no part in cuts",
 ]
-REQUIRED_COUNTERS = {"many_parameter_cases": 4, "saving_folder_used_before_by_another_run": 20, "tiny_grid_cases": 5, "segmented_runs": 150, "restore_cuts": 100, "plain_cuts": 100, "cuts_before_stateful": 80, "restore_chains": 10}
+REQUIRED_COUNTERS = {"continued_in_another_process": 12, "many_parameter_cases": 4, "saving_folder_used_before_by_another_run": 20, "tiny_grid_cases": 5, "segmented_runs": 150, "restore_cuts": 100, "plain_cuts": 100, "cuts_before_stateful": 80, "restore_chains": 10}
 REQUIRED_COUNTERS.update({f"cut_before_{k}": 1 for k in G.SAMPLER_KINDS})
 SHARDS = {"quick": 16, "thorough": 16}
 SHARD_WATCHDOG = {"quick": 1500, "thorough": 10800}
@@ -54,7 +55,7 @@ def run_case(desc, ctx):
     tiny = i % 5 == 3   # a grid with about as many points as the run has rows: proposals collide with the history, de-duplication works hard
     many = i % 6 == 1 and not heavy   # 11-13 parameters: column naming / ordering beyond a single digit on the restore path
     extreme = i % 7 == 5 and not heavy   # the model returns inf / 1e300-sized values: non-finite losses and huge series cross the checkpoint
-    cfg = CG.gen_config(rng, kinds=kinds, n_samplers=int(rng.integers(2, 5)) if tiny else int(rng.integers(1, 5)), max_bs=2, scheduler=str(rng.choice(["list", "rr"])),
+    cfg = CG.gen_config(rng, kinds=kinds, n_samplers=int(rng.integers(2, 5)) if tiny else int(rng.integers(1, 5)), max_bs=4 if tiny else 2, scheduler=str(rng.choice(["list", "rr"])),
                         model=str(rng.choice(["inf", "huge"])) if extreme else "plain",
                         **({"loss_kinds": ["minkowski", "msm", "fourier"]} if extreme else {}),
                         **({"max_points": 4, "max_params": 2} if tiny else ({"params": int(rng.integers(11, 14))} if many else {})))
@@ -64,6 +65,8 @@ def run_case(desc, ctx):
         c["models_returning_nonfinite_or_huge"] = 1
     if tiny:
         c["tiny_grid_cases"] = 1
+        # several rows of one batch collide with the history at once: which replacement lands in which row must not depend on anything but the run
+        cfg["lineup"][0] = dict(G.gen_sampler_desc(rng, "RandomUniform", batch_size=int(rng.integers(3, 5))), max_dedup=5)
     if heavy:
         k = G.SAMPLER_KINDS[(i // 3) % 9]
         if k in G.HISTORY_FREE:
@@ -73,7 +76,7 @@ def run_case(desc, ctx):
     if any(d["kind"] in ("CORS", "ParticleSwarm", "GaussianProcess") for d in cfg["lineup"]) and i % 2 and not tiny:
         cfg["space"] = G.gen_space(rng, dims=cfg["P"], fine=True)   # continuous-state samplers: let small state differences reach the grid
     L = len(cfg["lineup"])
-    small = i % 2 == 0
+    small = i % 2 == 0 and not tiny
     n = int(rng.integers(2, 5)) if small else int(rng.integers(5, 9 if desc["tier"] == "quick" else 11))
     twin = run(cfg, [n])
     twin.pop("cal")
@@ -151,6 +154,39 @@ def run_case(desc, ctx):
         except Exception as e:  # noqa: BLE001
             out["violations"].append({"msg": f"segmented run raised {type(e).__name__}: {str(e)[:160]} although the uninterrupted twin completed (labelling {list(lab)})", "witness": wit})
             break
+    if (tiny or i % 4 == 1) and n >= 2 and not out["violations"]:
+        # the restart that matters in practice: the first k batches in this process, then ANOTHER interpreter (own hash seed, own memory
+        # layout) restores the checkpoint and runs the rest
+        import json
+        import os
+        import subprocess
+        import sys
+
+        k_cut = int(rng.integers(1, n))
+        folder = str(ctx.scratch() / "ck")
+        wit = {"config": cfg, "batches": n, "first_process_ran": k_cut, "second_process_ran": n - k_cut}
+        try:
+            with quiet(), G.time_limit(G.LIMIT):
+                CG.build_calibrator(cfg, folder=folder).calibrate(k_cut)
+            d = ctx.scratch()
+            (d / "job.json").write_text(json.dumps({"cfg": cfg, "calls": [n - k_cut], "restore_from": folder}))
+            env = dict(os.environ, PYTHONHASHSEED=str(1 + (i * 7919 + desc["seed"]) % 4000000))
+            subprocess.run([sys.executable, "-m", "vlib.runcfg", str(d / "job.json"), str(d / "out.npz")], env=env, timeout=300, check=True,  # noqa: S603
+                           stdout=subprocess.DEVNULL, stderr=subprocess.PIPE)
+            z = np.load(d / "out.npz", allow_pickle=False)
+            c["continued_in_another_process"] = 1
+            out["evals"] += 1
+            if str(z["error"]):
+                out["violations"].append({"msg": f"another process restored the checkpoint after {k_cut} batches but its continuation raised {str(z['error'])}", "witness": wit})
+            else:
+                dd = S.history_equal({h: z[h] for h in S.HISTORY}, {h: twin[h] for h in S.HISTORY})
+                if dd:
+                    out["violations"].append({"msg": f"{k_cut} batches in one process, restore and {n - k_cut} batches in another: the history differs from the uninterrupted twin: " + "; ".join(dd[:2]),
+                                              "witness": wit})
+        except (subprocess.TimeoutExpired, G.Timeout):
+            c["third_party_timeout"] = c.get("third_party_timeout", 0) + 1
+        except Exception as e:  # noqa: BLE001
+            out["violations"].append({"msg": f"restart in another process failed: {type(e).__name__}: {str(e)[:160]}", "witness": wit})
     if i < 2:
         out["sample"] = {"lineup": [(d["kind"], d["batch_size"]) for d in cfg["lineup"]], "batches": n, "labellings": [list(x) for x in labelings[:5]], "loss": cfg["loss"]["kind"]}
     return out
